@@ -111,6 +111,10 @@ MUTATIONS = [
       (GO_H, sub('kodama_step *kodama_dendrogram_steps', 'const kodama_step *kodama_dendrogram_steps'))]),
     ('N3 macros.rs: `pub extern "C" fn`', 'PASS',
      [(MAC, sub('pub extern fn', 'pub extern "C" fn'))]),
+    ('N5 Rust: struct-literal initialisers of kodama_step listed in another order; into_method arms permuted', 'PASS',
+     [(RS, sub('                cluster1: step.cluster1,\n                cluster2: step.cluster2,\n                dissimilarity: step.dissimilarity,\n                size: step.size,',
+               '                size: step.size,\n                cluster1: step.cluster1,\n                cluster2: step.cluster2,\n                dissimilarity: step.dissimilarity,')),
+      (RS, swap('            kodama_method::Ward => Method::Ward,\n', '            kodama_method::Centroid => Method::Centroid,\n'))]),
     ('N4 Go enum(): case order permuted (Ward clause moved last)', 'PASS',
      [(GO, resub(r'(\tcase MethodWard:\n\t\treturn C\.kodama_method_ward\n)(.*?)(\tdefault:)', r'\2\1\3'))]),
 ]
